@@ -313,6 +313,13 @@ def do_case(res, agg, sect, row, f, word, mode, regvals, nzcv, it, addr, ver, ne
         res.count("cases_reading_pc")
     if diffs:
         what = classify(diffs, out, mode)
+        if row.cls == "CbzT1" and what == "PC" and len(diffs) == 1:
+            # narrows the recorded finding to its exact manner: target = PC + 2 * architectural offset
+            off = ((f["i"] << 5) | f["m"]) << 1 if "m" in f else None
+            for cand in ([off] if off is not None else [(a << 1) for a in range(64)]):
+                if diffs[0][2] == (addr + 4 + 2 * cand) & 0xFFFFFFFF and diffs[0][1] == (addr + 4 + cand) & 0xFFFFFFFF:
+                    what = "PC (offset scaled by 4 instead of 2)"
+                    break
         detail = semcheck.describe(row, f, word, mode, {k: v for k, v in regvals.items() if k in f.values() or k == 14},
                                    "addr=%#x nzcv=%s it=%#x v%d %s" % (addr, format(nzcv, "04b"), it, ver, note)) + \
             " | model->impl: " + machine.fmt_diff(diffs)
